@@ -388,6 +388,17 @@ def replay_primitive(sg):
         ds = spglib.get_symmetry_dataset((prim.get_cell(), prim.get_scaled_positions(), prim.get_atomic_numbers()), 1e-3)
         if ds.number != sg:
             bad.append("primitive system has space group %d" % ds.number)
+        # the primitive description is the same crystal: every conventional atom, folded into the primitive cell, sits on a primitive atom of its species
+        pc = np.array(prim.get_cell())
+        sp_c = np.linalg.solve(pc.T, conv.get_positions().T).T % 1.0
+        sp_p = prim.get_scaled_positions() % 1.0
+        zc, zp = conv.get_atomic_numbers(), prim.get_atomic_numbers()
+        worst = 0.0
+        for s_, z_ in zip(sp_c, zc):
+            d = (sp_p[zp == z_] - s_ + 0.5) % 1.0 - 0.5
+            worst = max(worst, float(np.linalg.norm(d @ pc, axis=1).min()) if len(d) else 9.9)
+        if worst > 1e-2:
+            bad.append("a conventional atom folded into the primitive cell is %.3f A away from every primitive atom of its species: the primitive lattice is not a lattice of this crystal" % worst)
         return {"reproduced": bool(bad), "observed": bad or "consistent", "probe": {"sg": sg}}
     except Exception as ex:
         return {"reproduced": True, "observed": "%s: %s" % (type(ex).__name__, str(ex)[:200]), "probe": {"sg": sg}}
